@@ -173,11 +173,27 @@ def validate_trace(ctx, module, cfg, tracefile, *, timeout=600, name=None, deque
     r = {"events": n, "accepted": False, "violated": None, "prefix": None, "out": out}
     if res.get("timeout"):
         raise MachineryError("trace validation timed out (%s, %d events)" % (cfg, n))
+    mv = re.search(r'"TRACE_VIOLATIONS",\s*(<<.*?>>)\s*>>\s*\n(?:Error|\d|Finished|The )', out, re.S)
+    r["viols"] = []
+    if mv:
+        txt = " ".join(mv.group(1).split())
+        for it in re.finditer(r'\[[^\[\]]*\]', txt):
+            rec = it.group(0)
+            mi = re.search(r'inv \|-> "([^"]+)"', rec)
+            ma = re.search(r'at \|-> (\d+)', rec)
+            mf = re.search(r'info \|-> (.*?)(?:, inv \|->|, at \|->|\s*\]$)', rec)
+            if mi and ma:
+                r["viols"].append({"inv": mi.group(1), "at": int(ma.group(1)), "info": mf.group(1).strip() if mf else ""})
+        if not r["viols"]:
+            r["viols"].append({"inv": "unparsed", "at": 0, "info": txt[:500]})
     m = re.search(r'"TRACE_REJECTED_AT",\s*(\d+),\s*(.*?)>>\s*\n', out, re.S)
     if res["violated"] and res["violated"] not in ("deadlock",):
         r["violated"] = res["violated"]
         ms = re.findall(r"^State (\d+):", out, re.M)
         r["prefix"] = int(ms[-1]) - 1 if ms else None
+    elif mv:
+        r["violated"] = r["viols"][0]["inv"]
+        r["prefix"] = r["viols"][0]["at"]
     elif m:
         r["prefix"] = int(m.group(1))
         r["event"] = " ".join(m.group(2).split())[:400]
